@@ -1,6 +1,6 @@
 #!/bin/bash
 # usage: sweep.sh <tier> <seed>...   runs every check on the current /repo tree; prints one line per check
-cd /verif
+cd "$(dirname "$0")"
 TIER=$1; shift
 for seed in "$@"; do
   for n in $(seq -w 1 20); do
